@@ -1,25 +1,36 @@
-"""Translator for C10: the string tables of the method-call dispatcher in txdbus/objects.py.
+"""Translator for C10: the constants of the method-call dispatcher in txdbus/objects.py.
 
-Reads the AST of `DBusObjectHandler.handleMethodCallMessage` and `DBusObject.executeMethod`
-(source of the working tree under test) and writes lean/TxdbusModel/Gen/Dispatch.lean:
+Reads the AST of `DBusObjectHandler.handleMethodCallMessage`, `DBusObject.executeMethod` and
+`DBusObject._set_method_flags` (source of the working tree under test) and writes
+lean/TxdbusModel/Gen/Dispatch.lean.  Roles are recognised by what the statement names, not by
+position or count, so that harmless rewrites keep translating:
 
-  * the three built-in (interface, member) pairs answered by the handler itself, in the code's
-    order (`msg.interface == '<I>' and msg.member == '<M>'` tests);
-  * the four error replies sent through `self._send_err(msg, '<error name>', <fmt> % <args>)`
-    (UnknownObject, the failure of GetManagedObjects added by repair C10-02, UnknownMethod,
-    InvalidArgs), in the code's order: error name, `%`-format string, and the source text of every format
-    argument (the model applies the arguments by hand; a `decide` lemma in Properties/C10.lean
-    pins the argument texts the model assumes);
-  * from the nested `send_error`: the `'org.txdbus.PythonException.'` prefix, the format of the
-    invalid-name notice and the fallback error name;
-  * from `executeMethod`: the `'dbus_'` attribute prefix;
-  * from `DBusObject._set_method_flags`: the keyword (`'dbusCaller'`) that requests the sender.
+  * the built-in (interface, member) tests `<msg>.interface == 'I' and <msg>.member == 'M'` whose
+    interface ends in `.Peer`, `.Introspectable`, `.ObjectManager` (any further test is ignored;
+    the correspondence streams see its effect), and the `signature=` constant of the
+    `MethodReturnMessage` built under each test;
+  * the `self._send_err(<msg>, '<error name>', <text>)` calls whose name ends in `.UnknownObject`,
+    `.UnknownMethod`, `.InvalidArgs`, and the one inside an `except` handler (the GetManagedObjects
+    failure of repair C10-02); further calls are ignored.  <text> may be `'fmt' % args`, an
+    f-string, `'fmt'.format(args)` (positional `{}`) or a plain literal; it is emitted as a list of
+    pieces: literal text and *slots* (`msg.path`, `msg.member`, `msg.signature or '<d>'`,
+    `msg.interface or '<d>'`, `<method>.sigIn [or '<d>']`, the caught exception / `str(e)`);
+    the name of the message parameter is whatever the function calls it;
+  * from the nested `send_error`: the `'org.txdbus.PythonException.'` prefix, the invalid-name
+    notice, the fallback error name, and the text escape of repair C10-01
+    (`errMsg = errMsg.replace(<one char>, <text>)[.encode('utf-8', <handler>).decode('utf-8')]`;
+    absent -> `textEscape := none`, which is the code before the repair);
+  * from `executeMethod`: the `'dbus_'` attribute prefix and the exception it raises when nothing
+    implements the member;
+  * from `_set_method_flags`: `len(args) >= <n> and args[-1] == '<kw>'` (the rule that decides
+    whether a method "asks for" the caller).
 
-Only the restricted forms above are accepted; anything else raises TranslatorError (the table
-obligation of C10 is then broken and the pipeline widens the search).
+Anything the model could not interpret (an unknown slot expression, another caller rule, a
+missing role) raises TranslatorError: the table obligation of C10 is then broken.
 """
 import ast
 import os
+import string
 
 MODULE = 'TxdbusModel.Gen.Dispatch'
 
@@ -28,6 +39,7 @@ class TranslatorError(Exception):
     pass
 
 
+# --------------------------------------------------------------------------- AST helpers
 def _find_class(tree, name):
     for n in tree.body:
         if isinstance(n, ast.ClassDef) and n.name == name:
@@ -42,89 +54,217 @@ def _find_func(node, name):
     raise TranslatorError('function %s not found in %s' % (name, getattr(node, 'name', '?')))
 
 
+def _is_str(n):
+    return isinstance(n, ast.Constant) and isinstance(n.value, str)
+
+
 def _const_str(n, what):
-    if isinstance(n, ast.Constant) and isinstance(n.value, str):
+    if _is_str(n):
         return n.value
     raise TranslatorError('%s is not a string literal: %s' % (what, ast.unparse(n)))
 
 
-def _is_attr(n, obj, attr):
-    return (isinstance(n, ast.Attribute) and n.attr == attr and isinstance(n.value, ast.Name)
-            and n.value.id == obj)
+def _msg_param(fn):
+    args = [a.arg for a in fn.args.args]
+    if len(args) < 2:
+        raise TranslatorError('%s has no message parameter' % fn.name)
+    return args[1]
 
 
-def builtin_pairs(fn):
-    """`msg.interface == 'I' and msg.member == 'M'` tests of top-level `if` statements, in order."""
-    pairs = []
-    for st in fn.body:
-        if not isinstance(st, ast.If):
+def _walk_no_nested(fn):
+    """Nodes of fn's body, not descending into nested function definitions."""
+    todo = list(fn.body)
+    while todo:
+        n = todo.pop(0)
+        yield n
+        for c in ast.iter_child_nodes(n):
+            if isinstance(c, (ast.FunctionDef, ast.AsyncFunctionDef, ast.Lambda)):
+                continue
+            todo.append(c)
+
+
+def _pair_test(t, msg):
+    """`<msg>.interface == 'I' and <msg>.member == 'M'` -> (I, M) or None."""
+    if not (isinstance(t, ast.BoolOp) and isinstance(t.op, ast.And) and len(t.values) == 2):
+        return None
+    got = {}
+    for x in t.values:
+        if not (isinstance(x, ast.Compare) and len(x.ops) == 1 and isinstance(x.ops[0], ast.Eq)
+                and len(x.comparators) == 1):
+            return None
+        l, r = x.left, x.comparators[0]
+        if _is_str(l):
+            l, r = r, l
+        if not (isinstance(l, ast.Attribute) and isinstance(l.value, ast.Name) and l.value.id == msg and _is_str(r)):
+            return None
+        got[l.attr] = r.value
+    if set(got) == {'interface', 'member'}:
+        return got['interface'], got['member']
+    return None
+
+
+ROLES = [('peer', '.Peer'), ('introspect', '.Introspectable'), ('managed', '.ObjectManager')]
+
+
+def builtin_tests(fn, msg):
+    """role -> ((interface, member), signature constant of the MethodReturnMessage under the test or None)."""
+    out = {}
+    for n in _walk_no_nested(fn):
+        if not isinstance(n, ast.If):
             continue
-        t = st.test
-        if not (isinstance(t, ast.BoolOp) and isinstance(t.op, ast.And) and len(t.values) == 2):
+        p = _pair_test(n.test, msg)
+        if p is None:
             continue
-        a, b = t.values
-        ok = all(isinstance(x, ast.Compare) and len(x.ops) == 1 and isinstance(x.ops[0], ast.Eq)
-                 and len(x.comparators) == 1 for x in (a, b))
-        if not ok:
-            continue
-        if _is_attr(a.left, 'msg', 'interface') and _is_attr(b.left, 'msg', 'member'):
-            pairs.append((_const_str(a.comparators[0], 'built-in interface'),
-                          _const_str(b.comparators[0], 'built-in member')))
-    return pairs
-
-
-def send_err_calls(fn):
-    """`self._send_err(msg, '<name>', <fmt> % <args>)` statements in source order (not inside nested defs)."""
-    out = []
-
-    class V(ast.NodeVisitor):
-        def visit_FunctionDef(self, node):
-            if node is fn:
-                self.generic_visit(node)
-            # nested functions (send_reply / send_error) are skipped
-
-        def visit_Call(self, node):
-            f = node.func
-            if isinstance(f, ast.Attribute) and f.attr == '_send_err' and isinstance(f.value, ast.Name) \
-                    and f.value.id == 'self':
-                if len(node.args) != 3 or node.keywords:
-                    raise TranslatorError('_send_err call with unexpected arguments: ' + ast.unparse(node))
-                if not (isinstance(node.args[0], ast.Name) and node.args[0].id == 'msg'):
-                    raise TranslatorError('_send_err first argument is not msg: ' + ast.unparse(node))
-                name = _const_str(node.args[1], '_send_err error name')
-                m = node.args[2]
-                if not (isinstance(m, ast.BinOp) and isinstance(m.op, ast.Mod)):
-                    raise TranslatorError('_send_err text is not `<fmt> % <args>`: ' + ast.unparse(m))
-                fmt = _const_str(m.left, '_send_err format')
-                args = m.right.elts if isinstance(m.right, ast.Tuple) else [m.right]
-                out.append((name, fmt, [ast.unparse(a) for a in args]))
-            self.generic_visit(node)
-
-    V().visit(fn)
+        for role, suffix in ROLES:
+            if p[0].endswith(suffix) and role not in out:
+                sig = None
+                for c in ast.walk(n):
+                    if isinstance(c, ast.Call) and isinstance(c.func, ast.Attribute) and c.func.attr == 'MethodReturnMessage':
+                        for kw in c.keywords:
+                            if kw.arg == 'signature':
+                                sig = _const_str(kw.value, 'signature of the %s reply' % role)
+                        break
+                out[role] = (p, sig)
+    for role, _ in ROLES:
+        if role not in out:
+            raise TranslatorError('built-in test for %s not found' % role)
     return out
 
 
-def check_format(fmt, nargs, what):
-    """Only `%s` conversions (and `%%`) are supported; their number must equal the argument count."""
-    i, n = 0, 0
+# --------------------------------------------------------------------------- text templates
+def _slot(expr, msg, excvars):
+    """One formatted expression -> a piece ('slot', kind, default) or TranslatorError."""
+    default = None
+    e = expr
+    if isinstance(e, ast.BoolOp) and isinstance(e.op, ast.Or) and len(e.values) == 2 and _is_str(e.values[1]):
+        default = e.values[1].value
+        e = e.values[0]
+    if isinstance(e, ast.Call) and isinstance(e.func, ast.Name) and e.func.id == 'str' and len(e.args) == 1 \
+            and not e.keywords:
+        e = e.args[0]
+    if isinstance(e, ast.Name) and e.id in excvars and default is None:
+        return ('excText', None)
+    if isinstance(e, ast.Attribute) and isinstance(e.value, ast.Name):
+        if e.value.id == msg:
+            if e.attr == 'path' and default is None:
+                return ('path', None)
+            if e.attr == 'member' and default is None:
+                return ('member', None)
+            if e.attr == 'signature' and default is not None:
+                return ('sigOr', default)
+            if e.attr == 'interface' and default is not None:
+                return ('ifaceOr', default)
+        elif e.attr == 'sigIn':
+            return ('sigInOr', default if default is not None else '')
+    raise TranslatorError('text argument %s is not one the model knows' % ast.unparse(expr))
+
+
+def _percent_pieces(fmt, args, msg, excvars, what):
+    pieces, lit, i, k = [], '', 0, 0
     while i < len(fmt):
         if fmt[i] == '%':
             if i + 1 >= len(fmt):
                 raise TranslatorError('%s: dangling %% in %r' % (what, fmt))
-            if fmt[i + 1] == 's':
-                n += 1
-            elif fmt[i + 1] != '%':
-                raise TranslatorError('%s: conversion %%%s outside the supported form (%r)' % (what, fmt[i + 1], fmt))
+            if fmt[i + 1] == '%':
+                lit += '%'
+            elif fmt[i + 1] == 's':
+                if k >= len(args):
+                    raise TranslatorError('%s: more conversions than arguments (%r)' % (what, fmt))
+                if lit:
+                    pieces.append(('lit', lit))
+                    lit = ''
+                pieces.append(_slot(args[k], msg, excvars))
+                k += 1
+            else:
+                raise TranslatorError('%s: conversion %%%s is outside the supported form' % (what, fmt[i + 1]))
             i += 2
         else:
+            lit += fmt[i]
             i += 1
-    if n != nargs:
-        raise TranslatorError('%s: %d conversions for %d arguments (%r)' % (what, n, nargs, fmt))
+    if k != len(args):
+        raise TranslatorError('%s: %d conversions for %d arguments' % (what, k, len(args)))
+    if lit:
+        pieces.append(('lit', lit))
+    return pieces
 
 
+def text_pieces(node, msg, excvars, what):
+    if _is_str(node):
+        return [('lit', node.value)] if node.value else []
+    if isinstance(node, ast.BinOp) and isinstance(node.op, ast.Mod) and _is_str(node.left):
+        args = node.right.elts if isinstance(node.right, ast.Tuple) else [node.right]
+        return _percent_pieces(node.left.value, list(args), msg, excvars, what)
+    if isinstance(node, ast.JoinedStr):
+        pieces = []
+        for v in node.values:
+            if _is_str(v):
+                if v.value:
+                    pieces.append(('lit', v.value))
+            elif isinstance(v, ast.FormattedValue) and v.format_spec is None and v.conversion in (-1, 115):
+                pieces.append(_slot(v.value, msg, excvars))
+            else:
+                raise TranslatorError('%s: f-string field outside the supported form: %s' % (what, ast.unparse(node)))
+        return pieces
+    if isinstance(node, ast.Call) and isinstance(node.func, ast.Attribute) and node.func.attr == 'format' \
+            and _is_str(node.func.value) and not node.keywords:
+        pieces, k = [], 0
+        for lit, field, spec, conv in string.Formatter().parse(node.func.value.value):
+            if lit:
+                pieces.append(('lit', lit))
+            if field is None:
+                continue
+            if field != '' or spec or conv not in (None, 's'):
+                raise TranslatorError('%s: only positional {} fields are supported' % what)
+            if k >= len(node.args):
+                raise TranslatorError('%s: more fields than arguments' % what)
+            pieces.append(_slot(node.args[k], msg, excvars))
+            k += 1
+        if k != len(node.args):
+            raise TranslatorError('%s: %d fields for %d arguments' % (what, k, len(node.args)))
+        return pieces
+    raise TranslatorError('%s: text %s is outside the supported forms' % (what, ast.unparse(node)))
+
+
+ERR_ROLES = [('unknownObject', '.UnknownObject'), ('unknownMethod', '.UnknownMethod'), ('invalidArgs', '.InvalidArgs')]
+
+
+def send_err_tables(fn, msg):
+    """role -> (error name, pieces) for UnknownObject / UnknownMethod / InvalidArgs and the call in an except handler."""
+    out = {}
+
+    def visit(n, excvars):
+        if isinstance(n, (ast.FunctionDef, ast.AsyncFunctionDef, ast.Lambda)) and n is not fn:
+            return
+        if isinstance(n, ast.ExceptHandler):
+            excvars = excvars | ({n.name} if n.name else set())
+            inside = True
+        else:
+            inside = None
+        if isinstance(n, ast.Call) and isinstance(n.func, ast.Attribute) and n.func.attr == '_send_err' \
+                and isinstance(n.func.value, ast.Name) and n.func.value.id == 'self' and len(n.args) == 3 \
+                and _is_str(n.args[1]):
+            name = n.args[1].value
+            role = None
+            for r, suffix in ERR_ROLES:
+                if name.endswith(suffix):
+                    role = r
+            if role is None and excvars:
+                role = 'managedFailed'
+            if role is not None and role not in out:
+                out[role] = (name, text_pieces(n.args[2], msg, excvars, '_send_err(%s)' % name))
+        for c in ast.iter_child_nodes(n):
+            visit(c, excvars)
+
+    for st in fn.body:
+        visit(st, set())
+    for r in [r for r, _ in ERR_ROLES] + ['managedFailed']:
+        if r not in out:
+            raise TranslatorError('_send_err call for %s not found' % r)
+    return out
+
+
+# --------------------------------------------------------------------------- send_error
 def send_error_tables(fn):
-    """Inside the nested `send_error`: the PythonException prefix, the invalid-name notice and
-    the fallback name."""
     inner = None
     for n in ast.walk(fn):
         if isinstance(n, ast.FunctionDef) and n.name == 'send_error':
@@ -132,49 +272,86 @@ def send_error_tables(fn):
     if inner is None:
         raise TranslatorError('nested function send_error not found')
     prefix = notice = fallback = None
+    escape = None
+    handler = None
     for n in ast.walk(inner):
-        if isinstance(n, ast.Assign) and len(n.targets) == 1 and isinstance(n.targets[0], ast.Name):
-            tgt, v = n.targets[0].id, n.value
-            if tgt == 'name' and isinstance(v, ast.BinOp) and isinstance(v.op, ast.Add):
-                # name = 'org.txdbus.PythonException.' + e.__class__.__name__
-                if ast.unparse(v.right) != 'e.__class__.__name__':
-                    raise TranslatorError('unexpected default error name: ' + ast.unparse(v))
-                prefix = _const_str(v.left, 'PythonException prefix')
-            elif tgt == 'name' and isinstance(v, ast.Constant) and isinstance(v.value, str):
-                fallback = v.value
-            elif tgt == 'errMsg' and isinstance(v, ast.BinOp) and isinstance(v.op, ast.Add):
-                # errMsg = ('!!(Invalid error name "%s")!! ' % name) + errMsg
-                l = v.left
-                if not (isinstance(l, ast.BinOp) and isinstance(l.op, ast.Mod)
-                        and ast.unparse(l.right) == 'name' and ast.unparse(v.right) == 'errMsg'):
-                    raise TranslatorError('unexpected invalid-name notice: ' + ast.unparse(v))
-                notice = _const_str(l.left, 'invalid-name notice')
+        if not (isinstance(n, ast.Assign) and len(n.targets) == 1 and isinstance(n.targets[0], ast.Name)):
+            continue
+        tgt, v = n.targets[0].id, n.value
+        if tgt == 'name' and isinstance(v, ast.BinOp) and isinstance(v.op, ast.Add) and _is_str(v.left):
+            if ast.unparse(v.right) not in ('e.__class__.__name__', 'type(e).__name__'):
+                raise TranslatorError('unexpected default error name: ' + ast.unparse(v))
+            prefix = v.left.value
+        elif tgt == 'name' and _is_str(v):
+            fallback = v.value
+        elif tgt == 'errMsg' and isinstance(v, ast.BinOp) and isinstance(v.op, ast.Add):
+            l = v.left
+            if not (isinstance(l, ast.BinOp) and isinstance(l.op, ast.Mod) and _is_str(l.left)
+                    and ast.unparse(l.right) == 'name' and ast.unparse(v.right) == 'errMsg'):
+                raise TranslatorError('unexpected invalid-name notice: ' + ast.unparse(v))
+            notice = l.left.value
+        elif tgt == 'errMsg':
+            # errMsg = errMsg.replace(A, B)[.encode('utf-8', H).decode('utf-8')]
+            c = v
+            h = None
+            if isinstance(c, ast.Call) and isinstance(c.func, ast.Attribute) and c.func.attr == 'decode':
+                enc = c.func.value
+                if not (isinstance(enc, ast.Call) and isinstance(enc.func, ast.Attribute) and enc.func.attr == 'encode'
+                        and len(enc.args) == 2 and all(_is_str(a) for a in enc.args)
+                        and enc.args[0].value.lower().replace('-', '') == 'utf8'
+                        and [a.value.lower().replace('-', '') for a in c.args if _is_str(a)] == ['utf8']):
+                    continue
+                h = enc.args[1].value
+                c = enc.func.value
+            if isinstance(c, ast.Call) and isinstance(c.func, ast.Attribute) and c.func.attr == 'replace' \
+                    and isinstance(c.func.value, ast.Name) and c.func.value.id == 'errMsg' and len(c.args) == 2 \
+                    and all(_is_str(a) for a in c.args) and len(c.args[0].value) == 1:
+                escape = (ord(c.args[0].value), c.args[1].value)
+                handler = h
     if prefix is None or notice is None or fallback is None:
         raise TranslatorError('send_error: prefix=%r notice=%r fallback=%r' % (prefix, notice, fallback))
-    check_format(notice, 1, 'invalid-name notice')
-    return prefix, notice, fallback
+    if notice.count('%s') != 1 or notice.replace('%s', '').count('%') != 0:
+        raise TranslatorError('invalid-name notice %r is not a one-%%s format' % notice)
+    return prefix, notice, fallback, escape, handler
 
 
+# --------------------------------------------------------------------------- executeMethod / flags
 def attr_prefix(fn):
-    """`getattr(self, '<prefix>' + methodName, None)` in executeMethod."""
     for n in ast.walk(fn):
         if isinstance(n, ast.Call) and isinstance(n.func, ast.Name) and n.func.id == 'getattr' \
-                and len(n.args) == 3 and isinstance(n.args[1], ast.BinOp) and isinstance(n.args[1].op, ast.Add):
-            if ast.unparse(n.args[1].right) != 'methodName':
-                raise TranslatorError('unexpected attribute lookup: ' + ast.unparse(n))
-            return _const_str(n.args[1].left, 'attribute prefix')
-    raise TranslatorError("getattr(self, '<prefix>' + methodName, None) not found in executeMethod")
+                and len(n.args) >= 2 and isinstance(n.args[1], ast.BinOp) and isinstance(n.args[1].op, ast.Add) \
+                and _is_str(n.args[1].left):
+            return n.args[1].left.value
+    raise TranslatorError("getattr(self, '<prefix>' + methodName, ...) not found in executeMethod")
 
 
-def caller_keyword(fn):
-    """`args[-1] == '<kw>'` in _set_method_flags."""
+def unbound_exception(fn):
+    names = set()
     for n in ast.walk(fn):
-        if isinstance(n, ast.Compare) and len(n.ops) == 1 and isinstance(n.ops[0], ast.Eq) \
-                and ast.unparse(n.left) == 'args[-1]':
-            return _const_str(n.comparators[0], 'caller keyword')
-    raise TranslatorError("`args[-1] == '<keyword>'` not found in _set_method_flags")
+        if isinstance(n, ast.Raise) and n.exc is not None:
+            e = n.exc.func if isinstance(n.exc, ast.Call) else n.exc
+            if isinstance(e, ast.Name):
+                names.add(e.id)
+    if len(names) != 1:
+        raise TranslatorError('executeMethod raises %r; expected one exception class' % sorted(names))
+    return names.pop()
 
 
+def caller_rule(fn):
+    """`len(args) >= N and args[-1] == '<kw>'` -> (kw, N)."""
+    for n in ast.walk(fn):
+        if isinstance(n, ast.BoolOp) and isinstance(n.op, ast.And) and len(n.values) == 2:
+            a, b = n.values
+            if isinstance(a, ast.Compare) and ast.unparse(a.left) == 'len(args)' and len(a.ops) == 1 \
+                    and isinstance(a.ops[0], ast.GtE) and isinstance(a.comparators[0], ast.Constant) \
+                    and isinstance(a.comparators[0].value, int) \
+                    and isinstance(b, ast.Compare) and ast.unparse(b.left) == 'args[-1]' and len(b.ops) == 1 \
+                    and isinstance(b.ops[0], ast.Eq) and _is_str(b.comparators[0]):
+                return b.comparators[0].value, a.comparators[0].value
+    raise TranslatorError("`len(args) >= N and args[-1] == '<keyword>'` not found in _set_method_flags")
+
+
+# --------------------------------------------------------------------------- emission
 def _lean_str(s):
     out = ['"']
     for ch in s:
@@ -192,8 +369,17 @@ def _lean_str(s):
     return ''.join(out)
 
 
-def _lean_list(xs):
-    return '[' + ', '.join(_lean_str(x) for x in xs) + ']'
+def _lean_piece(p):
+    kind, arg = p
+    if kind == 'lit':
+        return '.lit ' + _lean_str(arg)
+    if kind in ('sigOr', 'ifaceOr', 'sigInOr'):
+        return '.%s %s' % (kind, _lean_str(arg))
+    return '.' + kind
+
+
+def _lean_pieces(ps):
+    return '[' + ', '.join(_lean_piece(p) for p in ps) + ']'
 
 
 def tables(repo):
@@ -202,21 +388,13 @@ def tables(repo):
     handler = _find_class(tree, 'DBusObjectHandler')
     obj = _find_class(tree, 'DBusObject')
     fn = _find_func(handler, 'handleMethodCallMessage')
-    pairs = builtin_pairs(fn)
-    if len(pairs) != 3:
-        raise TranslatorError('expected 3 built-in (interface, member) tests, found %r' % (pairs,))
-    errs = send_err_calls(fn)
-    if len(errs) != 4:
-        raise TranslatorError('expected 4 _send_err calls (UnknownObject, GetManagedObjects failure, '
-                              'UnknownMethod, InvalidArgs), found %r' % (errs,))
-    for name, fmt, args in errs:
-        check_format(fmt, len(args), name)
-    prefix, notice, fallback = send_error_tables(fn)
-    return {
-        'pairs': pairs, 'errs': errs, 'prefix': prefix, 'notice': notice, 'fallback': fallback,
-        'attr_prefix': attr_prefix(_find_func(obj, 'executeMethod')),
-        'caller_kw': caller_keyword(_find_func(obj, '_set_method_flags')),
-    }
+    msg = _msg_param(fn)
+    prefix, notice, fallback, escape, enc_handler = send_error_tables(fn)
+    kw, nmin = caller_rule(_find_func(obj, '_set_method_flags'))
+    ex = _find_func(obj, 'executeMethod')
+    return {'builtin': builtin_tests(fn, msg), 'errs': send_err_tables(fn, msg), 'prefix': prefix, 'notice': notice,
+            'fallback': fallback, 'escape': escape, 'enc_handler': enc_handler,
+            'attr_prefix': attr_prefix(ex), 'unbound': unbound_exception(ex), 'caller_kw': kw, 'caller_min': nmin}
 
 
 def emit(repo):
@@ -229,13 +407,30 @@ def emit(repo):
     o.append('-/')
     o.append('namespace Txdbus.Gen.Dispatch')
     o.append('')
-    o.append('/-- `msg.interface == I and msg.member == M` tests answered by the handler itself, in the code\'s order. -/')
-    o.append('def builtinPairs : List (String × String) :=')
-    o.append('  [' + ', '.join('(%s, %s)' % (_lean_str(a), _lean_str(b)) for a, b in t['pairs']) + ']')
+    o.append('/-- A piece of an error text: literal characters or a slot filled from the call. -/')
+    o.append('inductive Piece where')
+    o.append('  | lit (s : String)')
+    o.append('  | path                      -- msg.path')
+    o.append('  | member                    -- msg.member')
+    o.append("  | sigOr (d : String)        -- msg.signature or '<d>'")
+    o.append("  | ifaceOr (d : String)      -- msg.interface or '<d>'")
+    o.append("  | sigInOr (d : String)      -- <method>.sigIn or '<d>'")
+    o.append('  | excText                   -- str(e) of the caught exception')
+    o.append('  deriving DecidableEq, Repr')
     o.append('')
-    o.append('/-- `self._send_err(msg, name, fmt % args)` calls in the code\'s order: (error name, format, source text of the arguments). -/')
-    o.append('def lookupErrors : List (String × String × List String) :=')
-    o.append('  [' + ',\n   '.join('(%s, %s, %s)' % (_lean_str(n), _lean_str(f), _lean_list(a)) for n, f, a in t['errs']) + ']')
+    for role, lean in (('peer', 'peerPair'), ('introspect', 'introspectPair'), ('managed', 'managedPair')):
+        (i, m), sig = t['builtin'][role]
+        o.append('/-- `msg.interface == I and msg.member == M` answered by the handler itself. -/')
+        o.append('def %s : String × String := (%s, %s)' % (lean, _lean_str(i), _lean_str(m)))
+    o.append('/-- `signature=` of the replies built under the Introspect / GetManagedObjects tests. -/')
+    o.append('def introspectSig : String := ' + _lean_str(t['builtin']['introspect'][1] or ''))
+    o.append('def managedSig : String := ' + _lean_str(t['builtin']['managed'][1] or ''))
+    o.append('')
+    for role in ('unknownObject', 'managedFailed', 'unknownMethod', 'invalidArgs'):
+        name, pieces = t['errs'][role]
+        o.append('/-- `self._send_err(msg, name, text)`: (error name, pieces of the text). -/')
+        o.append('def %s : String × List Piece :=' % role)
+        o.append('  (%s, %s)' % (_lean_str(name), _lean_pieces(pieces)))
     o.append('')
     o.append('/-- `name = <prefix> + e.__class__.__name__` in send_error. -/')
     o.append('def pyExceptionPrefix : String := ' + _lean_str(t['prefix']))
@@ -243,10 +438,21 @@ def emit(repo):
     o.append('def invalidNameNotice : String := ' + _lean_str(t['notice']))
     o.append('/-- the name used when the chosen error name is not a valid DBus error name. -/')
     o.append('def invalidErrorName : String := ' + _lean_str(t['fallback']))
+    o.append('/-- `errMsg = errMsg.replace(chr(c), r)` before the ErrorMessage is built (repair C10-01);')
+    o.append('`none`: the text is used as it is. -/')
+    if t['escape'] is None:
+        o.append('def textEscape : Option (Nat × String) := none')
+    else:
+        o.append('def textEscape : Option (Nat × String) := some (%d, %s)' % (t['escape'][0], _lean_str(t['escape'][1])))
+    o.append("/-- the `errors=` handler of the `.encode('utf-8', h).decode('utf-8')` that follows it (\"\" = absent). -/")
+    o.append('def textEncodeHandler : String := ' + _lean_str(t['enc_handler'] or ''))
     o.append('/-- `getattr(self, <prefix> + methodName, None)` in executeMethod. -/')
     o.append('def attrPrefix : String := ' + _lean_str(t['attr_prefix']))
-    o.append('/-- the last positional parameter name that requests the sender (`_set_method_flags`). -/')
+    o.append('/-- the exception executeMethod raises when nothing implements the member. -/')
+    o.append('def unboundException : String := ' + _lean_str(t['unbound']))
+    o.append('/-- `_set_method_flags`: `len(args) >= callerMinArgs and args[-1] == callerKeyword`. -/')
     o.append('def callerKeyword : String := ' + _lean_str(t['caller_kw']))
+    o.append('def callerMinArgs : Nat := %d' % t['caller_min'])
     o.append('')
     o.append('end Txdbus.Gen.Dispatch')
     return '\n'.join(o) + '\n'
